@@ -749,6 +749,12 @@ class _ActionSubCommands(_SubParsersAction):
                     f'expected "{dest}" to be one of {candidate_subcommands_str}, but it was not provided.'
                 )
 
+        if subcommand is not None and subcommand not in action._name_parser_map:  # type: ignore[attr-defined]
+            raise NSKeyError(
+                f'"{subcommand}" given for "{dest}" is not one of the available subcommands: '
+                f"{list(action._name_parser_map.keys())}."  # type: ignore[attr-defined]
+            )
+
         return subcommand_keys, [action._name_parser_map.get(s) for s in subcommand_keys]  # type: ignore[misc]
 
     @staticmethod
